@@ -492,7 +492,12 @@ func genCorrupt(c *ctx, emit func(string)) {
 		nm := 1 + r.Intn(3)
 		for m := 0; m < nm; m++ {
 			off := r.Intn(used + 16)
-			switch r.Intn(6) {
+			switch r.Intn(7) {
+			case 6: // length field of the first entry frame (always at offset 32): the sealed
+				// reader reaches it through the index and must bound its allocation
+				l := []string{"ffffffff", "01000004", "00000004", "00000100", "f0ffffff", "ffff0000"}[r.Intn(6)]
+				ops = append(ops, "X 24 "+l)
+				c.stat("first_frame_length_edit")
 			case 0:
 				ops = append(ops, fmt.Sprintf("X %x %02x", off, 1<<uint(r.Intn(8))))
 			case 1:
